@@ -603,6 +603,25 @@ def wide_access_rule(rep, mod):
              None if (guards or not wide) else 'word accesses without any alignment test')
 
 
+def ptr_roots(f, v):
+    """parameters a pointer value is derived from (through phis, geps and casts)"""
+    out, seen, work = set(), set(), [v]
+    while work:
+        x = work.pop()
+        if x.k == 'arg':
+            out.add(x.argno)
+            continue
+        i = f.inst_of(x)
+        if i is None or i.id in seen:
+            continue
+        seen.add(i.id)
+        if i.op == 'phi':
+            work += [w for (_, w) in i.incoming]
+        elif i.op in ('getelementptr', 'bitcast'):
+            work.append(i.ops[0])
+    return out
+
+
 def uchar_rule(rep, mods):
     """comparison results are differences of unsigned char values"""
     for name in ('memcmp', 'strcmp', 'strncmp'):
@@ -626,6 +645,102 @@ def uchar_rule(rep, mods):
                              f.inst_of(o.ops[0]).op == 'load' and f.inst_of(o.ops[0]).bits == 8 for o in ops)
                 rep.inst('R-UCHAR', name, 'result-is-difference-of-unsigned-chars', ok, r.where(),
                          None if ok else 'the value returned is not (unsigned char)a - (unsigned char)b')
+                if ok:
+                    ra, rb = [ptr_roots(f, f.inst_of(o.ops[0]).ops[0]) for o in ops]
+                    if not ra or not rb or len(ra) > 1 or len(rb) > 1:
+                        raise AnalysisBroken('%s: cannot tell which string the bytes of the returned difference come from' % name)
+                    rep.inst('R-UCHAR', name, 'result-is-first-minus-second', ra == {0} and rb == {1}, s_.where(),
+                             'the difference is taken between bytes of parameters %s and %s: the sign of every result is '
+                             'reversed' % (sorted(ra), sorted(rb)))
+
+
+def casefold_rule(rep, mods):
+    """R-CASEFOLD: strcasecmp / strncasecmp return the difference of the LOWER-CASE folds of the bytes at the two cursors,
+    first string minus second (POSIX: "as if the strings had been converted to lowercase and then a byte comparison
+    performed").  Folding the result with toupper() gives the wrong sign for the six characters between 'Z' and 'a'
+    ("aa_" vs "aaa"), swapping the operands negates every result."""
+    for name in ('strcasecmp', 'strncasecmp'):
+        f = mods[name].fn(name)
+
+        def roots(v, seen=None):
+            """parameters a pointer value is derived from"""
+            seen = set() if seen is None else seen
+            out = set()
+            work = [v]
+            while work:
+                x = work.pop()
+                if x.k == 'arg':
+                    out.add(x.argno)
+                    continue
+                i = f.inst_of(x)
+                if i is None or i.id in seen:
+                    continue
+                seen.add(i.id)
+                if i.op == 'phi':
+                    work += [w for (_, w) in i.incoming]
+                elif i.op in ('getelementptr', 'bitcast'):
+                    work.append(i.ops[0])
+            return out
+
+        def folded(v):
+            """(fold function, parameter of the string the byte comes from) for an operand of the returned difference"""
+            for _ in range(4):
+                i = f.inst_of(v)
+                if i is None:
+                    return None
+                if i.op in ('sext', 'zext', 'trunc'):
+                    v = i.ops[0]
+                    continue
+                if i.op == 'call' and i.callee in ('tolower', 'toupper'):
+                    a = i.ops[0]
+                    for _ in range(3):
+                        j = f.inst_of(a)
+                        if j is not None and j.op in ('sext', 'zext'):
+                            a = j.ops[0]
+                    j = f.inst_of(a)
+                    if j is None or j.op != 'load' or j.bits != 8:
+                        return None
+                    unsigned = any(f.inst_of(x) is not None and f.inst_of(x).op == 'zext' and f.inst_of(x).ops[0].k == 'inst'
+                                   and f.inst_of(x).ops[0].id == j.id for x in [i.ops[0]]) or i.ops[0].k != 'inst' or \
+                        f.inst_of(i.ops[0]).op != 'sext'
+                    return i.callee, roots(j.ops[0]), unsigned
+                return None
+            return None
+        n = 0
+        for r in f.returns():
+            if not r.ops:
+                continue
+            vals = [r.ops[0]]
+            ins = f.inst_of(r.ops[0])
+            if ins is not None and ins.op == 'phi':
+                vals = [v for (_, v) in ins.incoming]
+            for v in vals:
+                if v.k == 'ci':
+                    continue
+                s_ = f.inst_of(v)
+                if s_ is None or s_.op != 'sub':
+                    raise AnalysisBroken('%s: the value returned at %s is not a difference (form not recognised)' % (name, r.where()))
+                a, b = folded(s_.ops[0]), folded(s_.ops[1])
+                if a is None or b is None:
+                    raise AnalysisBroken('%s: operands of the returned difference at %s are not case folds of bytes read from '
+                                         'the strings (form not recognised)' % (name, s_.where()))
+                n += 1
+                ok = a[0] == b[0] == 'tolower' and a[1] == {0} and b[1] == {1} and a[2] and b[2]
+                why = None
+                if not ok:
+                    if a[0] != 'tolower' or b[0] != 'tolower':
+                        why = ('the result is the difference of %s()/%s() of the two bytes: POSIX compares the lower-case folds; '
+                               'for the characters between \'Z\' and \'a\' ([ \\ ] ^ _ `) the sign comes out wrong, e.g. '
+                               '%s("aaa", "aa_"%s) must be positive' % (a[0], b[0], name, ', 3' if 'n' in name[3:4] else ''))
+                    elif not (a[2] and b[2]):
+                        why = 'a byte is sign-extended before it is folded: values 0x80..0xFF compare as negative'
+                    else:
+                        why = ('the difference is taken between bytes of parameters %s and %s; it must be first string minus '
+                               'second string' % (sorted(a[1]), sorted(b[1])))
+                rep.inst('R-CASEFOLD', name, 'result-is-tolower(first)-minus-tolower(second)', ok, s_.where(), why,
+                         fact={'folds': [a[0], b[0]], 'from_params': [sorted(a[1]), sorted(b[1])]})
+        if n == 0:
+            raise AnalysisBroken('%s: no returned difference found' % name)
 
 
 def run(rep, repo, tier):
@@ -636,8 +751,8 @@ def run(rep, repo, tier):
         'zero), destinations have exactly the room the definition requires. Proved for all lengths and contents: no read '
         'or write outside those extents, n == 0 touches nothing, returned pointers lie inside the right object (or are '
         'NULL), length results (strlen, strnlen, strlcpy, strspn/strcspn bounds), memmove copy direction under overlap, '
-        'memcpy word accesses only under the alignment guard, comparisons use unsigned char. Byte-exact result values '
-        '(order of comparison results, copied contents) are not decided.')
+        'memcpy word accesses only under the alignment guard, comparison results are differences of unsigned chars taken '
+        'first minus second, the case-insensitive comparisons fold with tolower on both sides. Copied contents are not decided.')
     rep.assumptions += ['sources and destinations of copy functions do not overlap except for memmove',
                         'tolower/toupper map 0 to 0 and non-zero to non-zero', 'lengths <= 2^30']
     names = ['memchr', 'memcmp', 'memcpy', 'memmove', 'memrchr', 'memset', 'strcasecmp', 'strcasestr', 'strcat',
@@ -679,6 +794,8 @@ def run(rep, repo, tier):
     cursor_step_rule(rep, mods)
     uchar_rule(rep, mods)
     byte_eq_rule(rep, mods)
+    casefold_rule(rep, mods)
+    rep.floor('R-CASEFOLD', 2)
     rep.floor('R-LIBC:bounds', 40)
     rep.floor('R-LIBC:post', 30)
     rep.floor('R-UCHAR', 3)
